@@ -226,7 +226,22 @@ func enginePoison() {
 			}()
 		}
 	}
+	// last of all (nothing is rendered after it): deliveries of SUCCESSFUL renderings that the caller's writer breaks
+	// off - taking nothing, a part, or everything together with an error. Whatever such a delivery leaves behind in a
+	// pool or cache of the engine is still there when the next case starts.
+	if poisonOK == nil {
+		set, _ := newSet(map[string]string{"/p_ok.tpl": `POISON page {% include "/p_okinc.tpl" %} end of a page that was never delivered completely`,
+			"/p_okinc.tpl": `POISON include body with a longer text, so that a writer which breaks in the middle leaves something over`})
+		poisonOK, _ = set.FromFile("/p_ok.tpl")
+	}
+	if poisonOK != nil {
+		for i := 0; i < 6; i++ {
+			poisonOK.ExecuteWriter(ctx, &recWriter{failAt: 1, err: errPoison, short: []int{0, 3, 40, 0, 40, 3}[i], full: i == 2})
+		}
+	}
 }
+
+var poisonOK *pongo2.Template
 
 type panicWriter struct{}
 
